@@ -21,13 +21,14 @@ type C16Scn struct {
 	CtxKind    string            `json:"ctx_kind"` // cancel | deadline | expired | parent | none
 	Faults     map[string]string `json:"faults,omitempty"`
 	AllThunk   bool              `json:"all_thunk,omitempty"`
-	Park       []string          `json:"park"`                // site classes that park
-	CancelAt   int               `json:"cancel_at"`           // -1: the tape decides; k>=0: forced when k resolver gates have parked
-	CancelStep int               `json:"cancel_step"`         // -1: the tape decides; k>=0: forced once the run has taken k steps
-	BothReady  bool              `json:"both_ready"`          // park the caller before its select
-	CancelOn   string            `json:"cancel_on,omitempty"` // forced when a gate of this site class has parked
-	Pre        bool              `json:"pre,omitempty"`       // a cancelled request on an extension-bearing schema precedes the request
-	Ext        bool              `json:"ext,omitempty"`       // the judged schema has a (well-behaved, result-less) extension registered
+	Park       []string          `json:"park"`                 // site classes that park
+	CancelAt   int               `json:"cancel_at"`            // -1: the tape decides; k>=0: forced when k resolver gates have parked
+	CancelStep int               `json:"cancel_step"`          // -1: the tape decides; k>=0: forced once the run has taken k steps
+	BothReady  bool              `json:"both_ready"`           // park the caller before its select
+	CancelOn   string            `json:"cancel_on,omitempty"`  // forced when a gate of this site class has parked
+	Pre        bool              `json:"pre,omitempty"`        // a cancelled request on an extension-bearing schema precedes the request
+	Ext        bool              `json:"ext,omitempty"`        // the judged schema has a (well-behaved, result-less) extension registered
+	ExtDetach  bool              `json:"ext_detach,omitempty"` // the extension hands back contexts that are detached from the request\'s cancellation
 	Sticky     int               `json:"stickiness"`
 }
 
@@ -52,6 +53,8 @@ var c16Queries = []string{
 	// nothing here has an explicit resolver: the default resolver reads the root
 	// value, whose properties are user functions that may block
 	`{ plainRoot { name n tag } }`,
+	// an abstract type with a single possible type below a polymorphic field
+	`{ nodes(n:2) { id ... on A { solo { ... on B { id } } } ... on C { solo { ... on B { id } } } ... on B { u { ... on A { solo { ... on B { id } } } } } } }`,
 }
 
 // variables per query (custom scalar values are coerced by user code that is a
@@ -60,7 +63,7 @@ var c16Vars = map[string]map[string]interface{}{
 	`query($st:Stamp, $f:Filter){ echo(st:$st, f:$f) x1 }`: {"st": "v1", "f": map[string]interface{}{"st": "v2", "min": 2}},
 }
 
-var c16CtxKinds = []string{"cancel", "deadline", "expired", "parent", "cause"}
+var c16CtxKinds = []string{"cancel", "deadline", "expired", "parent", "cause", "cancel-then-deadline"}
 
 // number of resolver invocations per query (measured once, lazily)
 var c16Counts []int
@@ -148,6 +151,7 @@ func (p c16) Gen(seed uint64, enum int, tier string) json.RawMessage {
 	s.Sticky = []int{0, 30, 60, 90}[r.Intn(4)]
 	s.Pre = r.Chance(30)
 	s.Ext = r.Chance(30)
+	s.ExtDetach = s.Ext && r.Chance(40)
 	if r.Chance(75) {
 		qi := 0
 		for i, q := range c16Queries {
@@ -227,7 +231,7 @@ func (c16) Run(t TestingT, scn json.RawMessage, tape *Tape) *Outcome {
 		fakeStart = time.Now()
 		var w *World
 		if sc.Ext {
-			w = NewWorld("A", &SimExt{N: "E1", R: &ExtRun{HasResult: map[string]bool{}}})
+			w = NewWorld("A", &SimExt{N: "E1", R: &ExtRun{HasResult: map[string]bool{}}, Detach: sc.ExtDetach})
 		} else {
 			w = NewWorld("A")
 		}
@@ -243,6 +247,13 @@ func (c16) Run(t TestingT, scn json.RawMessage, tape *Tape) *Outcome {
 		case "parent":
 			ctx, cancel = context.WithCancel(parent)
 			doCancel = parentCancel
+		case "cancel-then-deadline":
+			// cancelled explicitly, and only then does the deadline pass: the
+			// context's error stays "canceled"
+			var tcancel context.CancelFunc
+			ctx, tcancel = context.WithTimeout(parent, 5*time.Second)
+			cancel = tcancel
+			doCancel = func() { tcancel(); time.Sleep(6 * time.Second) }
 		case "cause":
 			// cancelled with a private cause: the response still carries ctx.Err()
 			cctx, ccancel := context.WithCancelCause(parent)
